@@ -38,5 +38,6 @@ def run(ctx):
     R3.r14_12_same_constructors(ctx)
     R3.r14_13_value_as_given(ctx)
     R3.r14_14_exact_key_match(ctx, 'R14.14')
+    R3.r14_16_rename_keeps_keys_distinct(ctx)
     from . import memo_rules as M
     M.memo_sound(ctx, 'R14.M')
